@@ -188,27 +188,34 @@ end
 
 /-- every member chain of a MultiChain is a `build` of its config over the registry accumulated so far -/
 theorem multi_members (H : Str → Str) (pr : Char → Bool) (fs : FS) (cfs : CtxFS) (classes : Classes) (fuel : Nat) :
-    ∀ (mains : List (Str × Option CtxSrc)) (reg : Registry) (next : Nat) (cs : List Chain),
-      buildMultiAux H pr fs cfs classes fuel mains reg next = .ok cs →
+    ∀ (mains : List (Str × Option CtxSrc)) (seen : List Str) (reg : Registry) (next : Nat) (cs : List Chain),
+      buildMultiAux H pr fs cfs classes fuel mains seen reg next = .ok cs →
       cs.length = mains.length ∧ ∀ i (hi : i < cs.length) (hm : i < mains.length), ∃ regᵢ nextᵢ,
         build H pr fs cfs classes mains[i].1 none mains[i].2 regᵢ nextᵢ fuel = .ok cs[i]
-  | [], reg, next, cs, h => by
+  | [], seen, reg, next, cs, h => by
     simp only [buildMultiAux] at h; cases h
     exact ⟨rfl, fun i hi => by simp at hi⟩
-  | m :: rest, reg, next, cs, h => by
+  | m :: rest, seen, reg, next, cs, h => by
     simp only [buildMultiAux] at h
+    cases hn : mainName fs m.1 with
+    | error e => rw [hn] at h; cases h
+    | ok nm =>
+    rw [hn] at h
+    simp only at h
+    split at h
+    · cases h
     cases hb : build H pr fs cfs classes m.1 none m.2 reg next fuel with
     | error e => rw [hb] at h; cases h
     | ok c =>
       rw [hb] at h
       simp only at h
-      cases hr : buildMultiAux H pr fs cfs classes fuel rest c.reg c.next with
+      cases hr : buildMultiAux H pr fs cfs classes fuel rest (nm :: seen) c.reg c.next with
       | error e => rw [hr] at h; cases h
       | ok cs' =>
         rw [hr] at h
         simp only at h
         cases h
-        obtain ⟨hl, hrest⟩ := multi_members H pr fs cfs classes fuel rest c.reg c.next cs' hr
+        obtain ⟨hl, hrest⟩ := multi_members H pr fs cfs classes fuel rest (nm :: seen) c.reg c.next cs' hr
         refine ⟨by simp [hl], ?_⟩
         intro i hi hm
         cases i with
@@ -222,14 +229,14 @@ standalone, then the member chain created for it and the standalone chain create
 same parameter values, first-pass input tables and keys. -/
 theorem multichain_member_eq_standalone (H : Str → Str) (pr : Char → Bool) (fs : FS) (cfs : CtxFS) (classes : Classes) (fuel : Nat)
     (mains : List (Str × Option CtxSrc)) (cs : List Chain)
-    (hm : buildMultiAux H pr fs cfs classes fuel mains [] 0 = .ok cs)
+    (hm : buildMultiAux H pr fs cfs classes fuel mains [] [] 0 = .ok cs)
     (i : Nat) (hi : i < cs.length) (hi' : i < mains.length) (c : Chain)
     (hs : build H pr fs cfs classes mains[i].1 none mains[i].2 [] 0 fuel = .ok c) :
     ∃ (regᵢ : Registry) (nextᵢ : Nat) (S₁ : Stages H pr fs classes mains[i].1 none regᵢ nextᵢ fuel cs[i])
       (S₂ : Stages H pr fs classes mains[i].1 none [] 0 fuel c),
       S₁.st.done.map core = S₂.st.done.map core ∧
       cs[i].tasks.map (fun t => (t.full, t.slug, t.key, t.params)) = c.tasks.map (fun t => (t.full, t.slug, t.key, t.params)) := by
-  obtain ⟨_, hmem⟩ := multi_members H pr fs cfs classes fuel mains [] 0 cs hm
+  obtain ⟨_, hmem⟩ := multi_members H pr fs cfs classes fuel mains [] [] 0 cs hm
   obtain ⟨regᵢ, nextᵢ, hb⟩ := hmem i hi hi'
   obtain ⟨S₁, hc₁⟩ := build_stages_ctx H pr fs cfs classes mains[i].1 none mains[i].2 regᵢ nextᵢ fuel cs[i] hb
   obtain ⟨S₂, hc₂⟩ := build_stages_ctx H pr fs cfs classes mains[i].1 none mains[i].2 [] 0 fuel c hs
@@ -239,14 +246,14 @@ theorem multichain_member_eq_standalone (H : Str → Str) (pr : Char → Bool) (
 /-- non-vacuity: the two-member MultiChain over one pipeline (equal namespace) and the standalone chain of its second member -/
 example : (buildMultiAux id (fun _ => true)
       [("p".toList, .single { data := [], tasks := ["K0".toList, "K1".toList], excluded := [], uses := [] }),
-       ("c1".toList, .single { data := [], tasks := [], excluded := [], uses := ["p as a".toList] }),
-       ("c2".toList, .single { data := [], tasks := [], excluded := [], uses := ["p as a".toList] })]
-      [] k6Classes 8 [("c1".toList, none), ("c2".toList, none)] [] 0).toOption.isSome = true ∧
+       ("c1.json".toList, .single { data := [], tasks := [], excluded := [], uses := ["p as a".toList] }),
+       ("c2.json".toList, .single { data := [], tasks := [], excluded := [], uses := ["p as a".toList] })]
+      [] k6Classes 8 [("c1.json".toList, none), ("c2.json".toList, none)] [] [] 0).toOption.isSome = true ∧
     (build id (fun _ => true)
       [("p".toList, .single { data := [], tasks := ["K0".toList, "K1".toList], excluded := [], uses := [] }),
-       ("c1".toList, .single { data := [], tasks := [], excluded := [], uses := ["p as a".toList] }),
-       ("c2".toList, .single { data := [], tasks := [], excluded := [], uses := ["p as a".toList] })]
-      [] k6Classes "c2".toList none none [] 0 8).toOption.isSome = true := by
+       ("c1.json".toList, .single { data := [], tasks := [], excluded := [], uses := ["p as a".toList] }),
+       ("c2.json".toList, .single { data := [], tasks := [], excluded := [], uses := ["p as a".toList] })]
+      [] k6Classes "c2.json".toList none none [] 0 8).toOption.isSome = true := by
   constructor <;> rfl
 
 end TCV.C13
